@@ -136,9 +136,13 @@ impl Arbiter {
 // ===================================================================== construction: registration on the creating thread (C10)
 /// system.rs `static SYSTEM_COUNT` / arbiter.rs `static COUNT`: process-wide id counters (values arbitrary)
 pub struct AtomicCounter { }
+pub uninterp spec fn handed_out(id: usize) -> bool;
 pub enum Ordering { Relaxed, SeqCst }
 impl AtomicCounter {
-    #[verifier::external_body] pub fn fetch_add(&self, n: usize, o: Ordering) -> (r: usize) { unimplemented!() }
+    /// `handed_out(r)`: the value an atomic read-modify-write returns belongs to this caller alone — no other thread's
+    /// fetch_add returns it.  A plain `load` gives no such guarantee (two threads may read the same value before either
+    /// adds), which is all a sequential contract can and need say about the atomicity of id allocation.
+    #[verifier::external_body] pub fn fetch_add(&self, n: usize, o: Ordering) -> (r: usize) ensures handed_out(r) { unimplemented!() }
     /// The counters hand out the ids under which arbiters are REGISTERED with their system (the keys of the controller's
     /// map): an id is never handed out twice while the process lives, so the counters only ever grow.  Rewinding one
     /// (store / swap / fetch_sub) lets a later arbiter overwrite a live one's registration — it would never be stopped [C09]
@@ -299,6 +303,10 @@ ArbiterOwner { tx, thread_handle }
         // it has registered the arbiter with the system (arbiter_thread_body): a system stop issued right after
         // `Arbiter::new()` returns reaches the new arbiter   [C09]
         assert(r24_trace == seq![0int]);   // [C09]
+        // the id the new arbiter registers under (the key of the controller's map) was handed out to THIS call by an atomic
+        // fetch_add: two arbiters created concurrently never share a key (one would overwrite the other's registration
+        // and never be stopped)   [C09]
+        assert(handed_out(arb_id));   // [C09]
 //@end
 }
 
